@@ -32,7 +32,8 @@ any number of accounts, candidates and names, any heights and amounts. Clause by
 * voting-power rank: memory = reload, total = Σ ......... `vpr_memory_eq_reload`, `vpr_total_eq_sum`,
                                                           `vpr_power_eq_votes`
 * lock periods and minimum stake ......................... `stake_rule`, `stake_locked_iff`, `unstake_rule`,
-                                                          `unstake_accepted`, `vote_rule`, `refused_unchanged`
+                                                          `unstake_accepted`, `vote_rule`, `lock_restarts`,
+                                                          `refused_unchanged`
 * unstaking returns exactly the amount ................... `unstake_exact`, `unstake_never_insufficient`
 * names .................................................. `name_unique`, `name_create_rule`, `name_update_rule`,
                                                           `name_others_unchanged`
@@ -395,6 +396,26 @@ theorem vote_rule (s : St) (i : Issue) (a : Bytes) (h : Nat) (cands : List Bytes
     split
     · exact Or.inr rfl
     · exact Or.inl rfl
+
+/-- Every successful stake, unstake or vote at height `h` restarts the account's lock periods: the staking
+record's `When` becomes `h` (all three delays are measured from it). -/
+theorem lock_restarts {s s' : St} {a : Bytes} {h : Nat} :
+    (∀ amt, stake s a h amt = (.ok, s') → s'.stakedWhen a = h) ∧
+    (∀ amt, unstake s a h amt = (.ok, s') → s'.stakedWhen a = h) ∧
+    (∀ i cands, castVote s i a h cands = (.ok, s') → s'.stakedWhen a = h) := by
+  refine ⟨fun amt hr => ?_, fun amt hr => ?_, fun i cands hr => ?_⟩
+  · obtain ⟨_, bal, _, rfl⟩ := stake_ok hr
+    unfold St.stakedWhen; simp only; rw [AMap.get_set_eq]
+  · obtain ⟨_, s2, bal, hf, _, rfl⟩ := unstake_ok hr
+    obtain ⟨_, _, _, hst, _⟩ := refreshVotes_frame _ _ _ _ _ hf
+    unfold St.stakedWhen; simp only; rw [hst]
+    show (match AMap.get (s.stakes.set a ⟨s.stakedAmount a - amt, h⟩) a with | some st => st.when | none => 0) = h
+    rw [AMap.get_set_eq]
+  · obtain ⟨_, hv⟩ := castVote_ok hr
+    obtain ⟨_, _, _, hst, _⟩ := revote_frame hv
+    unfold St.stakedWhen; rw [hst]
+    show (match AMap.get (s.stakes.set a ⟨s.stakedAmount a, h⟩) a with | some st => st.when | none => 0) = h
+    rw [AMap.get_set_eq]
 
 /-- A refused operation leaves the whole state unchanged (the transaction is rolled back). -/
 theorem refused_unchanged (s : St) (o : Op) (hr : (step s o).1 ≠ .ok) : (step s o).2 = s := by
